@@ -224,7 +224,7 @@ KEY_NAMES = ["commandDown", "shiftDown", "controlDown", "optionDown", "key", "ke
 MOVIE_NAMES = ["actorList", "itemDelimiter", "frameLabel", "updateMovieEnabled", "cpuHogTicks", "romanLingo", "traceLoad",
                "traceLogFile", "movieName", "moviePath"]
 EXT_FUNCS = ["random", "length", "offset", "rect", "point", "script", "objectp", "label", "marker", "abs", "string", "value",
-             "getProp", "count2", "soundBusy", "window", "birth2", "myFunc", "otherFunc"]
+             "count2", "soundBusy", "window", "birth2", "myFunc", "otherFunc"]
 EXT_CMDS = ["put", "beep", "updateStage", "puppetTempo", "installMenu", "addProp", "deleteProp", "open", "nothing", "pause",
             "go", "alert", "doIt", "append", "return"]
 SYMS = ["name", "surname", "StackUnderflow", "alpha", "beta", "mname", "mget", "zz9"]
@@ -542,9 +542,17 @@ def walk(t):
             yield from walk(x)
 
 
+NAMED_CONST_VALUES = ("\x08", "\x03", "\"", "\r", "\t")
+
+
 def is_index_kept(e):
-    """object index forms the translator keeps verbatim: literal or variable"""
-    return e == "me" or (isinstance(e, list) and e and e[0] in ("i", "s", "f", "l", "p", "g", "r"))
+    """object index forms the translator keeps verbatim: literal or variable (a string that is spelled as a named constant is not:
+    only the node's raw name survives, so QUOTE becomes the unreadable three-quote literal)"""
+    if isinstance(e, list) and e and e[0] == "s":
+        return e[1][1] not in NAMED_CONST_VALUES
+    if isinstance(e, list) and e and e[0] == "i":
+        return e[1] < 32768
+    return e == "me" or (isinstance(e, list) and e and e[0] in ("f", "l", "p", "g", "r"))
 
 
 OBJ_TABLES = {"sprite": 1, "cast": 1, "sound": 1, "video": 1, "menu": 1, "menuItem": 2}
@@ -620,6 +628,10 @@ def features(h, script_globals=()):
             f.add("sym-known")
         if tag == "c" and len(t) == 2:
             f.add("call0")
+        if tag == "op" and (t[2] == "me" or (isinstance(t[2], list) and t[2][:1] in (["p"], ["l"], ["g"]) and t[2][1] == "me")):
+            f.add("F122")
+        if tag == "op" and isinstance(t[2], list) and t[2][0] == "i" and t[2][1] >= 32768:
+            f.add("F121")
     return sorted(f)
 
 if __name__ == "__main__":
